@@ -494,6 +494,26 @@ class MementoFunction(MementoFunctionBase):
             as_of_generation=MementoFunction._global_fn_generation, version=version
         )
 
+    def refresh_code_hash(self):
+        """
+        Recompute the code hash if it covers default parameter values: these are evaluated once,
+        when the function is defined, and a mutable default may have been updated since.
+
+        """
+        if (
+            self.explicit_version is None
+            and self._constructor_provided_version_code_hash is None
+            and (
+                getattr(self.fn, "__defaults__", None)
+                or getattr(self.fn, "__kwdefaults__", None)
+            )
+        ):
+            self.code_hash = fn_code_hash(
+                self.fn,
+                salt=self._constructor_provided_version_salt,
+                environment=ENVIRONMENT_HASH_BYTES,
+            )
+
     def _recompute_version(self):
         """Collect dependencies and [re]compute the version of this function"""
 
